@@ -109,10 +109,11 @@ DEFAULT_POP = {"tasks": 3, "workers": 3, "cum": 1, "sel": 1, "buf": 1, "cons": 2
 class SetupRejected(Exception):
     """A well-formed prerequisite element was rejected by the library."""
 
-    def __init__(self, what, exc):
+    def __init__(self, what, exc, cls_name):
         super().__init__(f"{what}: {exc!r}")
         self.what = what
         self.exc = exc
+        self.cls_name = cls_name
 
 
 def _short(kw):
@@ -125,14 +126,14 @@ def _mk(cls_name, **kw):
     try:
         return cls(**kw)
     except Exception as exc:
-        raise SetupRejected(f"{cls_name}({_short(kw)})", exc)
+        raise SetupRejected(f"{cls_name}({_short(kw)})", exc, cls_name)
 
 
 def _assign(task, resource, **kw):
     try:
         task.add_required_resource(resource, **kw)
     except Exception as exc:
-        raise SetupRejected(f"{task.name}.add_required_resource({resource.name}, {_short(kw)})", exc)
+        raise SetupRejected(f"{task.name}.add_required_resource({resource.name}, {_short(kw)})", exc, "add_required_resource")
 
 
 def _task(variant, name, **kw):
@@ -582,7 +583,7 @@ def make(case):
         name_kw = _apply_name_mode(case)
         kw = BUILDERS[FAMILY[el]](el, case["params"], "Q_")
     except SetupRejected as sr:
-        return {"outcome": "setup_rejected", "detail": str(sr)}
+        return {"outcome": "setup_rejected", "detail": str(sr)[:300], "prerequisite": sr.cls_name}
     kw.update(name_kw)
     cls = getattr(ps, el)
     try:
@@ -1146,7 +1147,7 @@ def evaluate(case):
     verdict = j.verdict()
     el = case["element"]
     if out["outcome"] == "setup_rejected":
-        return j, out, f"rejected_wellformed.prerequisite_of.{el}", f"a well-formed prerequisite was rejected: {out['detail']}"
+        return j, out, f"rejected_wellformed.prerequisite.{out['prerequisite']}", f"a well-formed prerequisite of {el} was rejected: {out['detail']}"
     if verdict == MUST_RAISE and out["outcome"] == "accepted":
         # aspects of the tuple the statement leaves open are part of the rule id, so that a known finding about a
         # degenerate shape cannot tolerate the plain violation of the same clause
